@@ -702,7 +702,7 @@ def check_C12(sc, v, tier, seed, replay):
     leadp = os.path.join(sc.work, "leads.json")
     json.dump(leads, open(leadp, "w"))
     # (2) exactness on spec-generated well-formed inputs
-    n = 160 if tier == "quick" else 4000
+    n = 160 if tier == "quick" else 12000
     opt_ieis = [89, 86, 34, 128, 117, 120, 121, 123, 37]
     skel = []
     for i in range(n):
